@@ -1,5 +1,6 @@
 import Model.ValueSpec
 import Model.MarshalInterp
+import Model.MarshalRepresent
 import Driver.Util
 namespace Driver.C12
 open Util
@@ -10,7 +11,8 @@ open Marshal
 Line protocol (prefix notation, one token per word):
 
   type    ::= ascii | bigint | … | list T | set T | map K V | tuple n T… | udt n name T …
-  goval   ::= nil | unset | nilptr | i K n | ni K n | s hex | ns hex | b hex | bnil | nb hex | nbnil
+  bytes   ::= - | part(+part)*    part ::= hexdigits | rep:XX:N   (N copies of byte XX; written for runs ≥ 24)
+  goval   ::= slrep GT n V (n copies of V) | mapseq K GV n V (map[K]GV{0:V,…,n-1:V}) | nil | unset | nilptr | i K n | ni K n | s hex | ns hex | b hex | bnil | nb hex | nbnil
             | bool 0/1 | nbool 0/1 | f32 bits | nf32 bits | f64 bits | nf64 bits | big n | dec u s | t sec nsec
             | dur ns | cd m d n | uuid hex | a16 hex | ip hex | ptr V | sl GT n V… | slnil GT | arr GT n V…
             | ifs n V… | map GK GV n K V … | mapnil GK GV | mset GK n K… | st n V… | um n name V … | umnil
@@ -26,6 +28,51 @@ ops:
   specdec p T hex GT      → ok V' | err | nonconformant | unmodelled     (SPEC: represent (specDec bytes))
 Printed values carry no Go types; map entries are sorted by their printed key.
 -/
+
+/-! ## compact byte strings: `-` | part(+part)*, part ::= hexdigits | rep:XX:N (the grammar of harness/valgen/hexc.go) -/
+
+def parsePartC (p : String) : Option Bytes :=
+  match p.splitOn ":" with
+  | ["rep", x, n] => do
+      let b ← parseHex x
+      let n ← n.toNat?
+      match b with
+      | [y] => if n ≤ 67108864 then some (List.replicate n y) else none
+      | _ => none
+  | [h] => if h.isEmpty then none else parseHex h
+  | _ => none
+
+def parseHexC (s : String) : Option Bytes :=
+  if s == "-" then some [] else
+  (s.splitOn "+").foldr (fun p acc => do
+    let r ← acc
+    let b ← parsePartC p
+    some (b ++ r)) (some [])
+
+/-- length of the run of `x` at the front, and the rest -/
+def runLen (x : UInt8) : List UInt8 → Nat → Nat × List UInt8
+  | y :: r, n => if y == x then runLen x r (n+1) else (n, y :: r)
+  | [], n => (n, [])
+
+def pushHexN (s : String) (b : UInt8) : Nat → String
+  | 0 => s
+  | n+1 => pushHexN ((s.push (hexDigit (b.toNat / 16))).push (hexDigit (b.toNat % 16))) b n
+
+def toHexCAux : Nat → List UInt8 → String → Bool → String
+  | 0, _, acc, _ => acc
+  | _, [], acc, _ => acc
+  | fuel+1, x :: r, acc, lit =>
+    let (n, rest) := runLen x r 1
+    if n ≥ 24 then
+      let acc := if acc.isEmpty then acc else acc ++ "+"
+      toHexCAux fuel rest (acc ++ "rep:" ++ pushHexN "" x 1 ++ ":" ++ toString n) false
+    else
+      let acc := if lit || acc.isEmpty then acc else acc ++ "+"
+      toHexCAux fuel rest (pushHexN acc x n) true
+
+/-- canonical: every maximal run of ≥ 24 equal bytes as a `rep` part -/
+def toHexC (bs : Bytes) : String :=
+  if bs.isEmpty then "-" else toHexCAux (bs.length + 1) bs "" false
 
 def parseKind : String → Option IntKind
   | "int" => some .int | "int8" => some .int8 | "int16" => some .int16 | "int32" => some .int32
@@ -136,11 +183,11 @@ def pVal : Nat → List String → Option (GoVal × List String)
     | "nilptr" :: r => some (.nilptr, r)
     | "i" :: k :: n :: r => do let k ← parseKind k; let n ← n.toInt?; some (.int k false n, r)
     | "ni" :: k :: n :: r => do let k ← parseKind k; let n ← n.toInt?; some (.int k true n, r)
-    | "s" :: h :: r => (parseHex h).map (fun b => (.str false b, r))
-    | "ns" :: h :: r => (parseHex h).map (fun b => (.str true b, r))
-    | "b" :: h :: r => (parseHex h).map (fun b => (.bytes false false b, r))
+    | "s" :: h :: r => (parseHexC h).map (fun b => (.str false b, r))
+    | "ns" :: h :: r => (parseHexC h).map (fun b => (.str true b, r))
+    | "b" :: h :: r => (parseHexC h).map (fun b => (.bytes false false b, r))
     | "bnil" :: r => some (.bytes false true [], r)
-    | "nb" :: h :: r => (parseHex h).map (fun b => (.bytes true false b, r))
+    | "nb" :: h :: r => (parseHexC h).map (fun b => (.bytes true false b, r))
     | "nbnil" :: r => some (.bytes true true [], r)
     | "bool" :: x :: r => (pBit x).map (fun b => (.bool false b, r))
     | "nbool" :: x :: r => (pBit x).map (fun b => (.bool true b, r))
@@ -153,9 +200,9 @@ def pVal : Nat → List String → Option (GoVal × List String)
     | "t" :: a :: b :: r => do let a ← a.toInt?; let b ← b.toInt?; some (.time a b, r)
     | "dur" :: n :: r => n.toInt?.map (fun n => (.dur n, r))
     | "cd" :: m :: d :: n :: r => do let m ← m.toInt?; let d ← d.toInt?; let n ← n.toInt?; some (.cqldur m d n, r)
-    | "uuid" :: h :: r => (parseHex h).map (fun b => (.uuid b, r))
-    | "a16" :: h :: r => (parseHex h).map (fun b => (.arr16 b, r))
-    | "ip" :: h :: r => (parseHex h).map (fun b => (.ip b, r))
+    | "uuid" :: h :: r => (parseHexC h).map (fun b => (.uuid b, r))
+    | "a16" :: h :: r => (parseHexC h).map (fun b => (.arr16 b, r))
+    | "ip" :: h :: r => (parseHexC h).map (fun b => (.ip b, r))
     | "ptr" :: r => do let (v, r') ← pVal fuel r; some (.ptr v, r')
     | "sl" :: r => do
         let (_, r0) ← pGoTy fuel r
@@ -166,6 +213,23 @@ def pVal : Nat → List String → Option (GoVal × List String)
             some (.slice false vs, r')
         | [] => none
     | "slnil" :: r => do let (_, r0) ← pGoTy fuel r; some (.slice true [], r0)
+    | "slrep" :: r => do
+        let (_, r0) ← pGoTy fuel r
+        match r0 with
+        | n :: r1 => do
+            let n ← n.toNat?
+            let (v, r') ← pVal fuel r1
+            some (.slice false (List.replicate n v), r')
+        | [] => none
+    | "mapseq" :: k :: r => do
+        let k ← parseKind k
+        let (_, r0) ← pGoTy fuel r
+        match r0 with
+        | n :: r1 => do
+            let n ← n.toNat?
+            let (v, r') ← pVal fuel r1
+            some (.map false ((List.range n).map (fun j => (GoVal.int k false (j : Nat), v))), r')
+        | [] => none
     | "arr" :: r => do
         let (_, r0) ← pGoTy fuel r
         match r0 with
@@ -223,6 +287,13 @@ def pVal : Nat → List String → Option (GoVal × List String)
 
 /-! ## printing -/
 
+def appendN (acc : String) (s : String) : Nat → String
+  | 0 => acc
+  | n+1 => appendN (acc ++ " " ++ s) s n
+
+def flushRun (acc prev : String) (cnt : Nat) : String :=
+  if cnt ≥ 8 then acc ++ " rep " ++ toString cnt ++ " " ++ prev else appendN acc prev cnt
+
 def insertSorted (x : String × String) : List (String × String) → List (String × String)
   | [] => [x]
   | y :: r => if x.1 < y.1 then x :: y :: r else y :: insertSorted x r
@@ -237,8 +308,8 @@ def showVal : GoVal → String
   | .unset => "unset"
   | .nilptr => "nilptr"
   | .int k named v => (if named then "ni " else "i ") ++ kindName k ++ " " ++ toString v
-  | .str named s => (if named then "ns " else "s ") ++ toHex s
-  | .bytes named isNil b => if isNil then (if named then "nbnil" else "bnil") else (if named then "nb " else "b ") ++ toHex b
+  | .str named s => (if named then "ns " else "s ") ++ toHexC s
+  | .bytes named isNil b => if isNil then (if named then "nbnil" else "bnil") else (if named then "nb " else "b ") ++ toHexC b
   | .bool named b => (if named then "nbool " else "bool ") ++ (if b then "1" else "0")
   | .f32 named x => (if named then "nf32 " else "f32 ") ++ toString x
   | .f64 named x => (if named then "nf64 " else "f64 ") ++ toString x
@@ -247,9 +318,9 @@ def showVal : GoVal → String
   | .time a b => "t " ++ toString a ++ " " ++ toString b
   | .dur n => "dur " ++ toString n
   | .cqldur m d n => "cd " ++ toString m ++ " " ++ toString d ++ " " ++ toString n
-  | .uuid b => "uuid " ++ toHex b
-  | .arr16 b => "a16 " ++ toHex b
-  | .ip b => "ip " ++ toHex b
+  | .uuid b => "uuid " ++ toHexC b
+  | .arr16 b => "a16 " ++ toHexC b
+  | .ip b => "ip " ++ toHexC b
   | .ptr v => "ptr " ++ showVal v
   | .slice isNil vs => if isNil then "slnil" else "sl " ++ toString vs.length ++ showVals vs
   | .array vs => "arr " ++ toString vs.length ++ showVals vs
@@ -264,9 +335,15 @@ def showVal : GoVal → String
       "um " ++ toString vs.length ++ es.foldl (fun acc (k, v) => acc ++ " " ++ k ++ " " ++ v) ""
   | .udtstruct names vs =>
       "us " ++ toString vs.length ++ (zipNames names (showValList vs)).foldl (fun acc x => acc ++ " " ++ x) ""
-def showVals : List GoVal → String
-  | [] => ""
-  | v :: vs => " " ++ showVal v ++ showVals vs
+def showVals (vs : List GoVal) : String := showValsRL vs "" 0 ""
+/-- run-length printing: a run of ≥ 8 equal adjacent printed elements is written ` rep k elem`
+    (state: previous printed element, its count so far, output so far) -/
+def showValsRL : List GoVal → String → Nat → String → String
+  | [], prev, cnt, acc => flushRun acc prev cnt
+  | v :: vs, prev, cnt, acc =>
+    let s := showVal v
+    if cnt > 0 && s == prev then showValsRL vs prev (cnt+1) acc
+    else showValsRL vs s 1 (flushRun acc prev cnt)
 def showValList : List GoVal → List String
   | [] => []
   | v :: vs => showVal v :: showValList vs
@@ -276,7 +353,7 @@ def showPairs : List (GoVal × GoVal) → List (String × String)
 end
 
 def showM : MRes → String
-  | .ok (some b) => "ok " ++ toHex b
+  | .ok (some b) => "ok " ++ toHexC b
   | .ok none => "null"
   | .err => "err"
   | .crash => "crash"
@@ -298,21 +375,21 @@ def normBytes : GoVal → GoVal
 /-! ## ops -/
 
 def parseData (w : String) : Option (Option Bytes) :=
-  if w == "null" then some none else (parseHex w).map some
+  if w == "null" then some none else (parseHexC w).map some
 
 def specAnswer (p : Nat) (t : CqlTy) (g : GoVal) : String :=
   match interp t g with
   | none => "err"
   | some .null => "null"
   | some v => (match ValueSpec.specEnc p t v with
-      | some b => "ok " ++ toHex b
+      | some b => "ok " ++ toHexC b
       | none => "err")
 
 def specDecAnswer (p : Nat) (t : CqlTy) (b : Bytes) (ty : GoTy) : String :=
   match ValueSpec.specDec p t b with
   | none => "nonconformant"
-  | some v => (match represent t ty v with
-      | .ok g => "ok " ++ showVal (normBytes g)
+  | some v => (match representAny t ty v with
+      | .ok g => "ok " ++ showVal (normDeep g)
       | .err => "err"
       | _ => "unmodelled")
 
